@@ -545,6 +545,26 @@ def enumerate_paths(fnode, hook=None, what="function", max_paths=96, consts=None
 # else: break`.  A tail call `H(a)` as the last statement of the function is
 # replaced by the body of H.  When `e` is a constant, the tests on x that open
 # `rest` are decided.  Nothing else is changed; H's locals are renamed apart.
+#
+# A call that stands deeper in the iteration, inside `if` statements only
+# (`if frame: self._handle(frame)`), is first brought to that form by the exact
+# rewrite
+#
+#     if c: A            if c: A; Z; continue
+#     else: B     ==>    else: B; Z; continue
+#     Z
+#
+# (Z = the statements that follow the `if` up to the end of the iteration; a
+# branch that already ends in return/raise/break/continue is left alone), after
+# which the block holding the call is followed by nothing but the next
+# iteration.  A call inside try/with/for blocks of the loop body is not moved
+# (what follows it would change its exception context): FuseError.
+#
+# fuse() is applied once per *anchor* (the sizing of the spool, the decoding of
+# the frame, the dispatch, the signalling processing): wherever the framing
+# loop was cut, the rules see the whole iteration.  This is what makes a
+# `return` that only leaves the step function -- while the loop goes on with
+# the next frame -- visible as what it is: `continue`.
 
 
 class FuseError(AnalysisError):
@@ -705,11 +725,12 @@ def _has_effect(e):
     return any(isinstance(n, (ast.Call, ast.Await, ast.Yield, ast.YieldFrom, ast.NamedExpr)) for n in ast.walk(e))
 
 
-def _expand_at(prog, fi, fn, loop, idx, callee, mode):
-    """Rewrite (in place, on the copy `fn`) the statement loop.body[idx] that
-    calls `callee`; mode: 'loop' (top level of a loop body) | 'tail' (last
-    statement of the function; loop is None, the statement is fn.body[idx])."""
-    body = loop.body if loop is not None else fn.body
+def _expand_at(prog, fi, fn, block, idx, callee, mode):
+    """Rewrite (in place, on the copy `fn`) the statement block[idx] that
+    calls `callee`; mode: 'loop' (block is a statement list of a loop body whose
+    end is followed by the next iteration) | 'tail' (last statement of the
+    function; block is fn.body)."""
+    body = block
     st = body[idx]
     rest = body[idx + 1 :]
     neg = False
@@ -869,11 +890,29 @@ def _expand_at(prog, fi, fn, loop, idx, callee, mode):
     body[idx:] = new
 
 
+def _sink_into_branches(block, i):
+    """block[i] is an `if` inside an iteration whose end (of block) is followed by
+    the next iteration: move what follows it into both branches (exact, see the
+    header comment); afterwards either branch is such a block itself."""
+    st = block[i]
+    z = block[i + 1 :]
+    for fld in ("body", "orelse"):
+        br = getattr(st, fld)
+        if not _terminates(br):
+            br.extend(copy.deepcopy(z))
+        if not _terminates(br):
+            br.append(ast.copy_location(ast.Continue(), st))
+    del block[i + 1 :]
+    ast.fix_missing_locations(st)
+
+
 def _call_stmt_sites(prog, fi, fn, wanted):
-    """(loop|None, index, callee, mode) of the first statement that calls a
-    function for which wanted(callee) holds: at the top level of a loop body
-    (after `while H():` has been put into the `while True: if H(): .. else:
-    break` form) or as the last statement of the function."""
+    """(block, index, callee, mode) of the first statement that calls a
+    function for which wanted(callee) holds: in a loop body, at its top level or
+    inside `if` statements only (after `while H():` has been put into the
+    `while True: if H(): .. else: break` form, and after the statements following
+    the enclosing `if`s were moved into their branches), or as the last statement
+    of the function."""
     def call_in(st):
         if isinstance(st, ast.Expr):
             e = st.value
@@ -889,6 +928,37 @@ def _call_stmt_sites(prog, fi, fn, wanted):
             return None
         return e if isinstance(e, ast.Call) else None
 
+    def direct(st):
+        if isinstance(st, ast.Return):
+            return None
+        e = call_in(st)
+        if e is not None:
+            c = callee_of(prog, fi, e)
+            if c is not None and wanted(c):
+                return c
+        return None
+
+    def holds(st):
+        """the `if` nest st contains a wanted call statement (through ifs only)"""
+        if direct(st) is not None:
+            return True
+        if isinstance(st, ast.If):
+            return any(holds(x) for x in st.body + st.orelse)
+        return False
+
+    def descend(block):
+        for i, st in enumerate(block):
+            c = direct(st)
+            if c is not None:
+                return block, i, c, "loop"
+            if isinstance(st, ast.If) and holds(st):
+                _sink_into_branches(block, i)
+                for br in (st.body, st.orelse):
+                    r = descend(br)
+                    if r is not None:
+                        return r
+        return None
+
     for n in _own_walk(fn.body):
         if isinstance(n, ast.While):
             t = n.test
@@ -901,31 +971,29 @@ def _call_stmt_sites(prog, fi, fn, wanted):
                     n.body = [ast.copy_location(ast.If(test=n.test, body=n.body, orelse=[ast.copy_location(ast.Break(), n)]), n)]
                     n.test = ast.copy_location(ast.Constant(value=True), n)
                     ast.fix_missing_locations(n)
-                    return n, 0, c, "loop"
+                    return n.body, 0, c, "loop"
         if isinstance(n, (ast.While, ast.For)):
-            for i, st in enumerate(n.body):
-                if isinstance(st, ast.Return):
-                    continue
-                e = call_in(st)
-                if e is not None:
-                    c = callee_of(prog, fi, e)
-                    if c is not None and wanted(c):
-                        return n, i, c, "loop"
+            r = descend(n.body)
+            if r is not None:
+                return r
     if fn.body:
         st = fn.body[-1]
         e = call_in(st) if isinstance(st, (ast.Expr, ast.Return)) else None
         if e is not None:
             c = callee_of(prog, fi, e)
             if c is not None and wanted(c):
-                return None, len(fn.body) - 1, c, "tail"
+                return fn.body, len(fn.body) - 1, c, "tail"
     return None
 
 
-def fuse(prog, fi, contains_anchor, max_rounds=4):
+def fuse(prog, fi, contains_anchor, max_rounds=4, required=True):
     """A FuncInfo for a copy of fi in which the statically bound callees that
     (transitively) contain the anchor have been expanded at loop-body / tail
     statements, or fi itself when its own body already contains the anchor.
-    contains_anchor(FuncInfo) -> bool looks at one function's own body."""
+    contains_anchor(FuncInfo) -> bool looks at one function's own body.
+    required=False: when no statically bound callee of fi contains the anchor
+    either (the anchor does not exist at all), fi is returned unchanged and the
+    caller's clauses decide what its absence means."""
     if contains_anchor(fi):
         return fi, []
 
@@ -949,13 +1017,21 @@ def fuse(prog, fi, contains_anchor, max_rounds=4):
         site = _call_stmt_sites(prog, cur, fn, wanted)
         if site is None:
             break
-        loop, idx, callee, mode = site
-        _expand_at(prog, cur, fn, loop, idx, callee, mode)
+        block, idx, callee, mode = site
+        _expand_at(prog, cur, fn, block, idx, callee, mode)
         log.append(callee.short)
         cur = FuncInfo(fi.qn, fn, fi.module, fi.cls, fi.parent)
     if contains_anchor(cur):
         return cur, log
-    raise FuseError("the anchor is not in %s nor in a step function called at the top level of one of its loops" % fi.short)
+    if not required:
+        reachable = False
+        for call in [n for n in _own_walk(fn.body) if isinstance(n, ast.Call)]:
+            d = callee_of(prog, cur, call)
+            if d is not None and wanted(d):
+                reachable = True
+        if not reachable:
+            return (cur, log) if log else (fi, [])
+    raise FuseError("the anchor is not in %s nor in a step function called (outside try/with blocks) in one of its loops" % fi.short)
 
 
 # ---------------------------------------------------------------------------
